@@ -791,8 +791,11 @@ def inline_new_helpers(data, known_fns):
             ptys = ["".join(str(p.get("ty") or "").replace("&", " ").replace("mut ", " ").split()) for p in node["params"]]
             if "Fn" in g or any("impl" in t or "dyn" in t or t in gnames for t in ptys):
                 continue  # helpers taking closures (or values of a bare generic type) are left alone
-            if _has_return(node["body"]):
+            rets = [x for x in A.walk(node["body"]) if x["k"] == "Return"]
+            err_only = bool(rets) and all(x.get("expr") is not None and x["expr"].get("k") == "Call" and x["expr"]["func"].get("k") == "Path" and x["expr"]["func"]["path"] == "Err" for x in rets)
+            if rets and not err_only:
                 continue
+            node["_err_returns"] = err_only   # `return Err(e)` leaves the caller too when the call is `h(..)?`: allowed only there
             if any((p.get("name") is None) or (p.get("name") != "self" and (p.get("pat") or {}).get("k") != "PIdent") for p in node["params"]):
                 continue
             cands[name] = (path, items, node, imp)
@@ -870,7 +873,7 @@ def inline_new_helpers(data, known_fns):
                 tail = body["stmts"][-1] if body.get("k") == "Block" and body.get("stmts") else None
                 te = tail.get("expr") if tail is not None and tail.get("k") == "ExprStmt" and not tail.get("semi") else None
                 wrapped = te is not None and te.get("k") == "Call" and te["func"].get("k") == "Path" and te["func"]["path"] in ("Ok", "Some") and len(te["args"]) == 1
-                if tries and not (under_try and wrapped):
+                if (tries or node.get("_err_returns")) and not (under_try and wrapped):
                     ok = False
                     break
                 plans.append((call, parent, ps, args, under_try and wrapped))
